@@ -2,5 +2,5 @@ SPECIFICATION Spec
 CONSTANTS
   Iteration = "sorted"
   MaxTypes = 3
-INVARIANTS Confluent Emit
+INVARIANTS Confluent Repeatable Emit
 CHECK_DEADLOCK FALSE
